@@ -52,6 +52,18 @@ GetOk(e, c) == ~Has(e.obs, "geterr") /\ e.obs.get = c
 PrefixFree(c) == variant = "secure" \/ \A i, j \in Present(c) : <<i, j>> \notin PlainPrefix
 Ascending(e) == \A i \in 1..(Len(e.obs.iter) - 1) : rank[e.obs.iter[i][1]] < rank[e.obs.iter[i + 1][1]]
 
+\* values returned by Get one step earlier, retained as returned, still read the same after the action in between
+StableOk(e) == Has(e.obs, "alias") => e.obs.alias[2] = 0
+\* the same proof produced into a sink that RETAINS the slices it is handed (like core/state.proofList): verified after Prove
+\* returned, again after a second Prove on the same trie, and that second proof from its own retaining sink
+CopyProofOk(e, c) == ~Failed(e) /\ Has(e, "res") /\ e.res = c[e.args.k]
+RetainProofOk(e, c) == Has(e, "ret") => (~Has(e.ret, "err") /\ e.ret.res = c[e.args.k] /\ e.ret.again = c[e.args.k] /\ e.ret.res2 = c[e.ret.k2])
+\* extra discriminators: which part of a clause failed
+Extra(cl, e, s2) ==
+   CASE cl = "ProofVerifiesToModel" /\ CopyProofOk(e, s2.kv) /\ ~RetainProofOk(e, s2.kv) -> {"retaining_sink"}
+     [] cl = "GetEqualsModel" /\ ~StableOk(e) -> {"aliased_result"}
+     [] OTHER -> {}
+
 \* the clause applies to this event
 Applies(cl, e, s1, s2) ==
    LET c == s2.kv IN
@@ -68,6 +80,7 @@ Holds(cl, e, s1, s2) ==
    CASE cl = "GetEqualsModel" ->
            /\ (e.ev \in {"Update", "Delete", "Get", "Hash", "Iterate", "Commit"} => ~Failed(e))
            /\ GetOk(e, c)
+           /\ StableOk(e)
            /\ (e.ev = "Get" => (Has(e, "res") /\ e.res = c[e.args.k]))
      [] cl = "IterationEqualsModel" -> IterOk(e, c) /\ (e.ev = "Iterate" => (Has(e, "res") /\ e.res = Cardinality(Present(c))))
      [] cl = "IterationAscending" -> Ascending(e)
@@ -80,7 +93,7 @@ Holds(cl, e, s1, s2) ==
            /\ (~Failed(e) \/ e.ev = "Restart")
            /\ Len(e.roots) = Len(s2.roots)
            /\ \A r \in DOMAIN s2.roots : Readable(s2, s2.roots[r]) => e.roots[r] = s2.roots[r]
-     [] cl = "ProofVerifiesToModel" -> ~Failed(e) /\ Has(e, "res") /\ e.res = c[e.args.k]
+     [] cl = "ProofVerifiesToModel" -> CopyProofOk(e, c) /\ RetainProofOk(e, c)
      [] cl = "TamperedProofNeverLies" -> \A i \in DOMAIN e.tamper.outs : e.tamper.outs[i] \in {-1, -2, c[e.args.k]}
 
 OpEvents == {"Update", "Delete", "Get", "Hash", "Iterate", "Prove", "Commit", "Reference", "Dereference", "Cap0", "CapHalf",
@@ -112,6 +125,13 @@ MStep ==
               /\ fired' = [fired EXCEPT !["RootIsStandard"] = @ + 1]
               /\ viol' = IF ok THEN viol ELSE viol \cup {<<"RootIsStandard", {e.ev}, l>>}
               /\ UNCHANGED <<s, variant, rank, rootOf, tableok>>
+        [] e.ev = "StateProof" ->
+              \* the production route StateDB.GetProof / GetStorageProof (sink: proofList, which retains): the proof verifies to
+              \* the account / slot value or to absence, right after the call and again after the next proof was produced
+              LET ok == e.res = e.want /\ e.again = e.want IN
+              /\ fired' = [fired EXCEPT !["ProofVerifiesToModel"] = @ + 1]
+              /\ viol' = IF ok THEN viol ELSE viol \cup {<<"ProofVerifiesToModel", {"StateProof", e.kind, "retaining_sink"}, l>>}
+              /\ UNCHANGED <<s, variant, rank, rootOf, tableok>>
         [] e.ev \in OpEvents ->
               LET s2 == Apply(s, e.args)
                   t  == Tag(s2.kv)
@@ -120,7 +140,7 @@ MStep ==
               /\ s' = s2
               /\ fired' = [cl \in ClauseNames |-> fired[cl] + (IF cl \in app THEN 1 ELSE 0)]
               \* never stops early, but keeps at most ~200 failures (the verdict needs one)
-              /\ viol' = IF Cardinality(viol) >= 200 THEN viol ELSE viol \cup { <<cl, {e.ev, variant}, l>> : cl \in bad }
+              /\ viol' = IF Cardinality(viol) >= 200 THEN viol ELSE viol \cup { <<cl, {e.ev, variant} \cup Extra(cl, e, s2), l>> : cl \in bad }
               /\ rootOf' = IF Has(e, "obs") /\ t \notin DOMAIN rootOf THEN rootOf @@ (t :> e.obs.root) ELSE rootOf
               /\ UNCHANGED <<variant, rank, tableok>>
         [] OTHER -> UNCHANGED <<s, variant, rank, rootOf, tableok, viol, fired>>
